@@ -79,6 +79,9 @@ def gen_case(rng, ctx):
             nxt = end_prev + pu + rng.choice([0, 0, 1000, -1000, 2000, -2000])   # around the pulse boundary
         elif r < 0.8:
             nxt = ts + rng.choice([1000, unit])
+        elif r < 0.83:
+            # far beyond the pulsetime, but by whole days / hours plus a remainder around it
+            nxt = end_prev + rng.choice([86400, 2 * 86400, 3600]) * 10**6 + rng.choice([0, 1000, pu, pu // 2])
         else:
             nxt = end_prev + pu + rng.randrange(1, 5) * unit
         ts = max(ts + 1000, floor_ms(nxt))
